@@ -22,8 +22,34 @@ def pf(s):
 
 
 def cv(s):
-    """'n:lin' -> 'lin' ; 'c:-4' -> -4.0"""
+    """'n:lin' -> 'lin' ; 'c:-4' -> -4.0 (float) ; 'ci:-4' -> -4 (a Python int curvature)"""
+    if s.startswith('ci:'):
+        return int(s[3:])
     return s[2:] if s.startswith('n:') else pf(s[2:])
+
+
+def graph_units(e):
+    """The envelope used through EnvGen.ar/.kr and IEnvGen.ar/.kr inside a real SynthDef build; the
+    emitted definition is read back with the independent SCgf reader: per unit class and rate the
+    list of constant input arrays (float32 values)."""
+    from sc3.synth.synthdef import SynthDef
+    from sc3.synth.ugens import EnvGen, IEnvGen, Out, DC
+    from tools import scgf
+
+    def g():
+        Out.ar(0, EnvGen.ar(e))
+        Out.kr(0, EnvGen.kr(e))
+        Out.kr(8, IEnvGen.kr(e, 0.5))
+        Out.ar(8, IEnvGen.ar(e, DC.ar(0.5)))
+    sd = SynthDef('c19', g)
+    d = scgf.parse(bytes(sd.as_bytes()))[0]
+    out = {}
+    for u in d['ugens']:
+        if u['cls'] in ('EnvGen', 'IEnvGen'):
+            key = u['cls'] + ('.ar' if u['rate'] == 2 else '.kr' if u['rate'] == 1 else f'.rate{u["rate"]}')
+            out.setdefault(key, []).append(
+                [fr(float(d['consts'][k])) if a == -1 else f'u:{d["ugens"][a]["cls"]}' for a, k in u['ins']])
+    return out
 
 
 def build(Env, case):
@@ -90,6 +116,15 @@ def run_case(Env, case):
         out['osc'] = [x if isinstance(x, str) else fr(x) for x in lst]
     except Exception as ex:
         out['ctl'] = f'E:{type(ex).__name__}'
+    if not isinstance(out.get('fmt'), str):
+        try:
+            out['ifmt'] = [[fr(v) for v in ch] for ch in e._interpolation_format()]
+        except Exception as ex:
+            out['ifmt'] = f'E:{type(ex).__name__}'
+        try:
+            out['graph'] = graph_units(e)
+        except Exception as ex:
+            out['graph'] = f'E:{type(ex).__name__}'
     ats = []
     for t in case.get('at', []):
         try:
